@@ -104,6 +104,8 @@ def _schema(startdir):
     s.y = cc.StringField(default="dy")
     s.l = cc.ListField(cc.IntField(), default=lambda: [9])
     s.free = cc.DictField(default=dict)
+    s.tags = cc.ListField(default=list)  # untyped: the configuration holds the very list the loader produced
+    s.sub.tags = cc.ListField(default=list)
     s.sub.inc = cc.IncludeField(startdir=startdir)
     s.sub.inc2 = cc.IncludeField(startdir=startdir)
     s.sub.p = cc.IntField(default=0)
@@ -331,7 +333,114 @@ def _check_path(kind, fmt, tmp):
     return fails
 
 
+# ------------------------------------------------------------------------------------------------ repeated loads
+RELOAD = {
+    "main": {"y": "main", "x": 1, "free": {"own": 1, "m": {"main": [0]}}, "sub": {"q": "main"}},
+    "root_file": {"x": 2, "free": {"k": "v", "m": {"a": [1, 2], "d": {"e": "f"}}}, "tags": ["t1", {"n": 1}, [1, 2]]},
+    "sub_file": {"p": 3, "free": {"k": "sv", "deep": {"l": ["a"]}}, "tags": ["s", {"n": 1}]},
+}
+
+
+def _mutate_loaded_values(cfg):
+    """what an application may do with values it got from a configuration: change the mutable ones in place"""
+    cfg.free["k"] = "changed"
+    cfg.free["new"] = 1
+    cfg.free["m"]["a"].append(99)
+    cfg.free["m"]["d"]["e"] = "changed"
+    cfg.free["m"]["main"].append(5)
+    del cfg.free["own"]
+    cfg.tags.append("x")
+    cfg.tags[1]["n"] = 2
+    cfg.tags[2].append(3)
+    cfg.sub.free["k"] = "changed"
+    cfg.sub.free["deep"]["l"].append("b")
+    cfg.sub.tags.append("x")
+    cfg.sub.tags[1]["n"] = 2
+    cfg.sub.tags.pop(0)
+
+
+def _check_reload(kind, fmt, mode, via, tmp):
+    """kind: fresh-config-same-schema | fresh-config-new-schema (load A, mutate A's values, load B from the unchanged
+    files: B == from-scratch reference) | load-twice | load-mutate-load (same configuration object, == one load)"""
+    import cincoconfig as cc
+    fails = []
+    base = os.path.join(tmp, "reload-%s-%s-%s-%s" % (kind, fmt, mode, via))
+    incdir = os.path.join(base, "inc")
+    os.makedirs(incdir, exist_ok=True)
+    names = {"root_file": "r." + fmt, "sub_file": "s." + fmt}
+    for key, name in names.items():
+        with open(os.path.join(incdir, name), "wb") as fp:
+            fp.write(_dump(fmt, RELOAD[key]))
+    main = copy.deepcopy(RELOAD["main"])
+    main["inc"] = names["root_file"] if mode == "relative" else os.path.join(incdir, names["root_file"])
+    main["sub"]["inc"] = names["sub_file"] if mode == "relative" else os.path.join(incdir, names["sub_file"])
+    doc = _dump(fmt, main)
+    mainfile = os.path.join(base, "main." + fmt)
+    with open(mainfile, "wb") as fp:
+        fp.write(doc)
+    files_before = {n: open(os.path.join(incdir, n), "rb").read() for n in names.values()}
+
+    def load(cfg):
+        if via == "loads":
+            cfg.loads(doc, fmt)
+        else:
+            cfg.load(mainfile, fmt)
+        return cfg
+
+    # the from-scratch reference: the merged tree of the property, loaded as a tree (no include machinery involved)
+    want_tree = copy.deepcopy(RELOAD["main"])
+    want_tree = merge(want_tree, RELOAD["root_file"])
+    want_tree["sub"] = merge(want_tree["sub"], RELOAD["sub_file"])
+    want_tree["inc"] = main["inc"]
+    want_tree["sub"]["inc"] = main["sub"]["inc"]
+    ref = _schema(incdir)()
+    ref.load_tree(copy.deepcopy(want_tree))
+    want, want_marks = _observable(ref)
+
+    schema = _schema(incdir)
+    try:
+        a = load(schema())
+        first, first_marks = copy.deepcopy(_observable(a))
+        if kind.startswith("fresh-config"):
+            _mutate_loaded_values(a)
+            b = load((schema if kind == "fresh-config-same-schema" else _schema(incdir))())
+            got, got_marks = _observable(b)
+            obligation = "fields.include_field:IncludeField.include/post:C18.include-depends-only-on-files"
+            label = "second configuration loaded after the first one's values were changed in place"
+        else:
+            if kind == "load-mutate-load":
+                _mutate_loaded_values(a)
+            load(a)
+            got, got_marks = _observable(a)
+            obligation = "core:Config.loads/post:C18.reload-equals-single-load"
+            label = "same configuration loaded twice" + (" with its values changed in place in between"
+                                                         if kind == "load-mutate-load" else "")
+    except Exception as exc:
+        return [("core:Config.loads/post:C18.load-equals-load-of-merged-tree",
+                 "reload scenario %s (%s, %s, %s) raised %s: %s" % (kind, fmt, mode, via, type(exc).__name__, exc),
+                 "raises:reload:%s" % kind)]
+    if not _same_tree(first, want) or first_marks != want_marks:
+        fails.append(("core:Config.loads/post:C18.load-equals-load-of-merged-tree",
+                      "reload scenario (%s, %s, %s): first load gives %r, load_tree(merged) gives %r"
+                      % (fmt, mode, via, first, want), "reload:first-load"))
+    if not _same_tree(got, want) or got_marks != want_marks:
+        fg, fw = _flat(got), _flat(want)
+        diff = sorted(k for k in set(fg) | set(fw) if not strict_eq(fg.get(k, "<absent>"), fw.get(k, "<absent>")))
+        fails.append((obligation, "%s (%s, %s path, %s): differs from the from-scratch load at %r: got %r, expected %r"
+                      % (label, fmt, mode, via, diff, {k: fg.get(k, "<absent>") for k in diff},
+                         {k: fw.get(k, "<absent>") for k in diff}), kind))
+    files_after = {n: open(os.path.join(incdir, n), "rb").read() for n in names.values()}
+    if files_after != files_before or open(mainfile, "rb").read() != doc:
+        fails.append(("core:Config.loads/post:C18.loading-leaves-files-alone", "a configuration file changed on disk", kind))
+    return fails
+
+
+RELOAD_KINDS = ("fresh-config-same-schema", "fresh-config-new-schema", "load-twice", "load-mutate-load")
+
+
 def _run(case, tmp):
+    if case["check"] == "reload":
+        return _check_reload(case["kind"], case["format"], case["mode"], case["via"], tmp)
     if case["check"] == "combine":
         return _check_combine(copy.deepcopy(case["base"]), copy.deepcopy(case["child"]))
     if case["check"] == "chain":
@@ -372,11 +481,16 @@ def rac(tier="quick", seed=0):
         rule="(a) ordered pair of plain trees -> combine_trees vs reference merge + both inputs unchanged; non-trivial iff "
              "both trees are non-empty; (b) seeded random deeper pairs and chains of two merges; (c) (scenario, format, "
              "path mode, load|loads) -> configuration after load with include files == after load_tree/loads of the merged "
-             "tree (values and user-defined marks); (d) (path kind, format) -> startdir resolution / failing load",
+             "tree (values and user-defined marks); (d) (path kind, format) -> startdir resolution / failing load; (e) (reload kind, "
+             "format, path mode, entry point) -> load with root + nested includes into A, change A's mutable values in "
+             "place (untyped list/dict values and their nested items), load the unchanged files into a fresh B (same or "
+             "new schema): B == load_tree(merged); same configuration loaded twice (with/without changes in between) == "
+             "one load",
         bound="(a) all 144x144 pairs of trees over keys {a,b}, leaves {1,'x'}, depth <= 2 (overlapping/disjoint keys, "
               "map/non-map conflicts at 2 depths); (b) quick 1500 / thorough 40000 random pairs + chains, depth <= 4, 4 keys, "
               "10 leaf values incl. lists/None/empty; (c) 13 scenarios (root, nested, depth-3, two includes in one scope, "
-              "all scopes at once) x 5 formats x 4 path modes x 2 entry points; (d) 6 path kinds x 5 formats",
+              "all scopes at once) x 5 formats x 4 path modes x 2 entry points; (d) 6 path kinds x 5 formats; (e) 4 reload kinds x 5 formats x 2 path modes x 2 entry "
+              "points, 14 in-place changes at depth <= 3",
         tier=tier, seed=seed)
     with sandbox() as tmp:
         pool = _trees(("a", "b"), (1, "x"), 2)
@@ -385,7 +499,7 @@ def rac(tier="quick", seed=0):
                 case = {"check": "combine", "base": base, "child": child}
                 fails = _check_combine(copy.deepcopy(base), copy.deepcopy(child))
                 rec.case(key=("pair", bi, ci), nontrivial=bool(base) and bool(child),
-                         sample=case if (bi * 144 + ci) % 3001 == 7 else None)
+                         sample=case if (bi * 144 + ci) % 6007 == 7 else None)
                 for obligation, what, wk in fails:
                     rec.violation(obligation=obligation, what=what, replay=dict(case, obligation=obligation), witness_key=wk)
         for sc in SCENARIOS:
@@ -396,6 +510,17 @@ def rac(tier="quick", seed=0):
                         fails = _run(case, tmp)
                         rec.case(key=("load", sc["name"], fmt, mode, via), nontrivial=bool(sc["includes"]),
                                  sample=case if (fmt, mode, via) == ("yaml", "relative", "loads") and sc["name"] == "all-scopes" else None)
+                        for obligation, what, wk in fails:
+                            rec.violation(obligation=obligation, what=what, replay=dict(case, obligation=obligation),
+                                          witness_key=wk)
+        for kind in RELOAD_KINDS:
+            for fmt in FORMATS:
+                for mode in ("relative", "absolute"):
+                    for via in ("loads", "load"):
+                        case = {"check": "reload", "kind": kind, "format": fmt, "mode": mode, "via": via}
+                        fails = _run(case, tmp)
+                        rec.case(key=("reload", kind, fmt, mode, via), nontrivial=True,
+                                 sample=case if (kind, fmt, mode, via) == (RELOAD_KINDS[0], "json", "relative", "loads") else None)
                         for obligation, what, wk in fails:
                             rec.violation(obligation=obligation, what=what, replay=dict(case, obligation=obligation),
                                           witness_key=wk)
